@@ -106,9 +106,11 @@ var implicitMethods = map[string]bool{
 	"ValidateBasic": true, "Validate": true, "GetSigners": true, "GetSignBytes": true, "Route": true, "Type": true, "LogValue": true,
 }
 
-func (p *Prog) boundaryCalls() []boundaryCall {
+func (p *Prog) boundaryCalls() []boundaryCall { return p.boundaryCallsOf(p.Funcs) }
+
+func (p *Prog) boundaryCallsOf(fns []*ssa.Function) []boundaryCall {
 	var out []boundaryCall
-	for _, fn := range p.Funcs {
+	for _, fn := range fns {
 		top := fn
 		for top.Parent() != nil {
 			top = top.Parent()
@@ -283,6 +285,15 @@ func boundaryObligation(p *Prog, r *Report) {
 				}
 			}
 		}
+	}
+	if p.ControlSSA != nil {
+		got := false
+		for _, bc := range p.boundaryCallsOf(p.ControlFuncs) {
+			if bc.fn.Name() == "Handoff" && len(bc.caps) > 0 && capabilityCallees[bc.callee] == "" {
+				got = true
+			}
+		}
+		r.check(got, "positive-control", "positive-control/boundary", "", "the boundary inventory reports the fixture's keeper handed to fmt.Sprint", "the boundary inventory misses the fixture's capability hand-off")
 	}
 	if bad == 0 {
 		r.ok("boundary", "boundary/all", "", fmt.Sprintf("%d calls leave the module with a capability, a function value or a module-typed interface value; all among the reference tree's %d capability takers and %d callback takers, and no new method of a handed type has an effect", n, len(capabilityCallees), len(callbackCallees)))
